@@ -790,6 +790,33 @@ def n_generic_visit(eng, args, kwargs, st):
     return ok(args[1], st)
 
 
+class _Cycle:
+    def __init__(self, items):
+        self.items = items
+
+
+def n_cycle(eng, args, kwargs, st):
+    return ok(Native(_Cycle(eng.iter_concrete(args[0], st))), st)
+
+
+def n_islice(eng, args, kwargs, st):
+    src, n = args[0], args[1]
+    if isinstance(n, Sym) or len(args) != 2:
+        raise Unsupported("islice with symbolic / extended bounds")
+    if isinstance(src, Native) and isinstance(src.obj, _Cycle):
+        items = src.obj.items
+        return ok(st.alloc(HList([items[i % len(items)] for i in range(n)] if items else [])), st)
+    return ok(st.alloc(HList(eng.iter_concrete(src, st)[:n])), st)
+
+
+def n_setattr(eng, args, kwargs, st):
+    o, name, v = args
+    if isinstance(o, Ref) and isinstance(st.heap[o.oid], HObj) and isinstance(name, str):
+        st.heap[o.oid].attrs[name] = v
+        return ok(None, st)
+    raise Unsupported("setattr on %r" % (o,))
+
+
 def n_identity(eng, args, kwargs, st):
     return ok(args[0] if len(args) == 1 else tuple(args), st)
 
@@ -803,6 +830,7 @@ NATIVE = {
     itertools.takewhile: n_takewhile, ast.literal_eval: n_literal_eval, abs: n_abs, max: n_max, min: n_min,
     zip: n_zip, str.casefold: n_casefold, itertools.chain.from_iterable: n_chain_from_iterable,
     itertools.chain: n_chain, print: n_print, ast.NodeTransformer.generic_visit: n_generic_visit,
+    itertools.cycle: n_cycle, itertools.islice: n_islice, setattr: n_setattr,
     str.strip: n_str_method("strip"), str.lstrip: n_str_method("lstrip"), str.rstrip: n_str_method("rstrip"),
     str.startswith: n_str_method("startswith"), str.endswith: n_str_method("endswith"),
     str.lower: n_str_method("lower"),
